@@ -122,6 +122,12 @@ func (tc *TarsClient) GraceClose(ctx context.Context) {
 	}
 }
 
+// UncountReply corrects the count of requests in flight for a received packet that is not the reply to one
+// (a push): the receive loop counts every complete packet as a reply.
+func (tc *TarsClient) UncountReply() {
+	atomic.AddInt32(&tc.conn.invokeNum, 1)
+}
+
 func (c *connection) ReConnect() (err error) {
 	c.connLock.Lock()
 	defer c.connLock.Unlock()
